@@ -42,13 +42,22 @@ def write_plans(path, plans):
             f.write(json.dumps(p, separators=(",", ":")) + "\n")
 
 
-def run_and_decode(wd, plans_path, seed, tag="act"):
+def run_and_decode(wd, plans_path, seed, tag="act", v=None, key="activation:abort"):
+    """run the activation driver and decode its blobs.  A driver killed while the library runs (abort, refused allocation,
+    stack overflow) is an observation about the library: with a Verdict given it becomes a violation naming the plan in
+    flight, and what was recorded before is analysed as usual."""
     vh = core.build_harness()
     trace = os.path.join(wd, tag + ".trace.ndjson")
     blobs = os.path.join(wd, tag + ".blobs.ndjson")
     decoded = os.path.join(wd, tag + ".decoded.ndjson")
-    rc, err = core.run_harness(vh, "activation", ["--plans", plans_path, "--trace", trace, "--blobs", blobs, "--seed", str(seed)])
-    if rc != 0:
+    marker = os.path.join(wd, tag + ".progress")
+    rc, err = core.run_harness(vh, "activation", ["--plans", plans_path, "--trace", trace, "--blobs", blobs, "--seed", str(seed)], env={"VH_PROGRESS": marker})
+    if rc is not None and rc < 0 and v is not None:
+        cur = open(marker).read().strip() if os.path.exists(marker) else "?"
+        v.violation(key, "the driver process died (rc %s: abort / refused allocation / stack overflow) inside the library while running plan %s: %s" % (rc, cur, err[-300:]), {"plan": cur})
+        core.keep_complete_lines(trace, drop_last_run=True)
+        core.keep_complete_lines(blobs)
+    elif rc != 0:
         raise core.ToolError("activation driver failed rc=%s: %s" % (rc, err[-2000:]))
     dec = core.pass_a(blobs, decoded, wd)
     return trace, blobs, decoded, dec
